@@ -16,6 +16,9 @@ pub enum Need {
     LpOf(usize),
     AssetOf(usize),
     RouterSelf,
+    /// a message shape that no caller may get through (e.g. an internal message smuggled
+    /// inside a cw20 Receive wrapper)
+    Nobody,
 }
 
 /// Which caller a message to `target` requires, or None when it is not privileged/internal.
@@ -32,6 +35,19 @@ pub fn classify(model: &Model, target: &str, msg: &str) -> Option<(Need, String)
         };
     }
     if target == model.router {
+        if variant == "receive" {
+            // the only legitimate hook payload is execute_swap_operations
+            let inner = body.get("msg")?.as_str()?;
+            let bin = Binary::from_base64(inner).ok()?;
+            let iv: serde_json::Value = serde_json::from_slice(bin.as_slice()).ok()?;
+            let (hook, _) = iv.as_object()?.iter().next()?;
+            return match hook.as_str() {
+                "execute_swap_operation" | "assert_minimum_receive" => {
+                    Some((Need::Nobody, format!("router.receive[{}]", hook)))
+                }
+                _ => None,
+            };
+        }
         return match variant.as_str() {
             "execute_swap_operation" | "assert_minimum_receive" => {
                 Some((Need::RouterSelf, format!("router.{}", variant)))
@@ -50,6 +66,9 @@ pub fn classify(model: &Model, target: &str, msg: &str) -> Option<(Need, String)
                 let iv: serde_json::Value = serde_json::from_slice(bin.as_slice()).ok()?;
                 let (hook, _) = iv.as_object()?.iter().next()?;
                 return match hook.as_str() {
+                    "update_native_token_decimals" | "provide_liquidity" => {
+                        Some((Need::Nobody, format!("pair.receive[{}]", hook)))
+                    }
                     "withdraw_liquidity" => {
                         Some((Need::LpOf(pi), "pair.receive.withdraw_liquidity".into()))
                     }
@@ -68,6 +87,7 @@ pub fn satisfies(model: &Model, need: &Need, sender: &str) -> bool {
         Need::Owner => sender == model.owner,
         Need::Factory => sender == model.factory,
         Need::RouterSelf => sender == model.router,
+        Need::Nobody => false,
         Need::LpOf(i) => model.pairs.get(*i).map_or(false, |p| p.lp == sender),
         Need::AssetOf(i) => model.pairs.get(*i).map_or(false, |p| {
             p.infos.iter().any(|a| match a {
